@@ -272,6 +272,15 @@ func Generate(r *rand.Rand, sz Size) *Model {
 				}
 				s.Props = append(s.Props, Prop{Key: fmt.Sprintf("b%d", q), V: v})
 			}
+			if len(g.strTypes) > 0 && r.Intn(3) == 0 {
+				// a property whose key refers to a string type: inherited with its flag, named after the type's example
+				sk := g.strTypes[r.Intn(len(g.strTypes))]
+				s.Props = append(s.Props, Prop{Key: sk, V: &S{K: "int", Lit: "2"}, Shortcut: true})
+				if g.objShortcut == nil {
+					g.objShortcut = map[string]string{}
+				}
+				g.objShortcut[t.Name] = sk
+			}
 			t.Schema = s
 			g.objTypes = append(g.objTypes, t.Name)
 			g.refTypes = append(g.refTypes, t.Name)
